@@ -4,6 +4,6 @@ SEED=${1:-1}; TIER=${2:-quick}
 D=/tmp/mvh-all-$SEED; rm -rf $D; mkdir -p $D; cp /verif/known_findings.json $D/; [ -d /verif/replays ] && cp -r /verif/replays $D/ 
 [ "${KEEP:-0}" = 1 ] && D=/verif
 for i in $(seq -w 1 20); do
-  out=$(MVH_VERIF_DIR=$D MVH_SCALE=${SCALE:-1} /verif/harness/target/release/check C$i --tier $TIER --seed $SEED 2>&1 | grep -v "^KNOWN" | tail -3 | cut -c1-900)
+  out=$(MVH_VERIF_DIR=$D MVH_SCALE=${SCALE:-1} ${BIN:-/verif/harness/target/release/check} C$i --tier $TIER --seed $SEED 2>&1 | grep -v "^KNOWN" | tail -3 | cut -c1-900)
   echo "$out" | tail -2
 done
